@@ -8,6 +8,9 @@ import (
 	"strings"
 
 	"github.com/cedar-policy/cedar-go/types"
+	"github.com/cedar-policy/cedar-go/x/exp/schema"
+	"github.com/cedar-policy/cedar-go/x/exp/schema/resolved"
+	exptypes "github.com/cedar-policy/cedar-go/x/exp/types"
 
 	"verifharness/cwf"
 )
@@ -112,8 +115,23 @@ func valueBack(b []byte) J {
 			return Obj{"ok": false, "err": ascii(err.Error())}
 		}
 		b2, _ := json.Marshal(v)
-		return Obj{"ok": true, "v": cwf.ValueToJ(v), "re": string(b2)}
+		return Obj{"ok": true, "v": cwf.ValueToJ(v), "re": string(b2), "go": v}
 	})
+}
+
+// the decoded object and the original must be Equal for the library itself (both directions), hash-compatible
+// (a set holding both has one member) and equal as members of records
+func goEqual(a, b types.Value) bool {
+	if a == nil || b == nil {
+		return false
+	}
+	if !a.Equal(b) || !b.Equal(a) {
+		return false
+	}
+	if types.NewSet(a, b).Len() != 1 || !types.NewSet(a).Equal(types.NewSet(b)) {
+		return false
+	}
+	return types.NewRecord(types.RecordMap{"k": a}).Equal(types.NewRecord(types.RecordMap{"k": b}))
 }
 
 func entityToJ(e types.Entity) J {
@@ -128,7 +146,7 @@ func entityBack(b []byte) J {
 			return Obj{"ok": false, "err": ascii(err.Error())}
 		}
 		b2, _ := json.Marshal(e)
-		return Obj{"ok": true, "v": entityToJ(e), "re": string(b2)}
+		return Obj{"ok": true, "v": entityToJ(e), "re": string(b2), "go": e}
 	})
 }
 
@@ -270,12 +288,25 @@ func opVJSON(c Obj) J {
 		}
 	}
 	delete(bk.(Obj), "re")
+	out["equal"] = true
+	if g, has := bk.(Obj)["go"]; has {
+		switch kind {
+		case "value":
+			out["equal"] = goEqual(must(cwf.JToValue(c["datum"])), g.(types.Value))
+		case "entity":
+			for _, e := range must(cwf.JToStore([]any{c["datum"]})) {
+				out["equal"] = e.Equal(g.(types.Entity)) && g.(types.Entity).Equal(e)
+			}
+		}
+		delete(bk.(Obj), "go")
+	}
 	spell := []any{}
 	addSpell := func(name string, d J) {
 		var w bytes.Buffer
 		fromTJSON(d, &w)
 		r := back(w.Bytes())
 		delete(r.(Obj), "re")
+		delete(r.(Obj), "go")
 		if ok, _ := r.(Obj)["ok"].(bool); ok {
 			names = append(names, r.(Obj)["v"])
 		}
@@ -340,7 +371,27 @@ func escapeLookalike(k int) types.Value {
 	}
 }
 
+var collidingMembers = []types.Value{types.Boolean(true), types.Long(1), cwf.DecimalFromRaw(1), types.NewDurationFromMillis(1), types.NewDatetimeFromMillis(1),
+	types.Boolean(false), types.Long(0), cwf.DecimalFromRaw(0), types.Long(2), types.Long(3), types.Long(5), cwf.DecimalFromRaw(5),
+	types.NewSet(types.Long(1), types.Long(2)), types.NewSet(types.Long(3)), types.NewSet(), types.NewSet(types.Long(0))}
+
+// sets whose members collide in the library's hash (equal numeric payloads, equal member sums), in random insertion order
+func (g *gen) collidingSet() types.Value {
+	n := 2 + g.r.Intn(3)
+	vs := make([]types.Value, n)
+	for i := range vs {
+		vs[i] = collidingMembers[g.r.Intn(len(collidingMembers))]
+	}
+	return types.NewSet(vs...)
+}
+
 func (g *gen) jsonValue(depth int) types.Value {
+	if g.r.Intn(8) == 0 {
+		if depth > 0 && g.r.Intn(2) == 0 {
+			return types.NewRecord(types.RecordMap{"s": g.collidingSet(), "t": types.NewSet(g.collidingSet(), g.collidingSet())})
+		}
+		return g.collidingSet()
+	}
 	switch g.r.Intn(10) {
 	case 0:
 		return types.Long(boundary64(g.r, g.r.Intn(60)))
@@ -402,7 +453,10 @@ func driveVJSON(seed int64, n int, params map[string]string) []Obj {
 		case 0, 1:
 			out = append(out, Obj{"op": "vjson", "kind": "value", "datum": cwf.ValueToJ(g.jsonValue(3))})
 		case 2:
-			if i%64 == 2 {
+			if i%128 == 66 {
+				// both members hash to 2^64 - 1: the probe chain wraps around
+				out = append(out, Obj{"op": "vjson", "kind": "value", "datum": cwf.ValueToJ(types.NewSet(types.Long(-1), cwf.DecimalFromRaw(-1)))})
+			} else if i%64 == 2 {
 				out = append(out, Obj{"op": "vjson", "kind": "value", "datum": cwf.ValueToJ(escapeLookalike(i / 64))})
 			} else {
 				out = append(out, Obj{"op": "vjson", "kind": "value", "datum": cwf.ValueToJ(g.jsonValue(3))})
@@ -456,3 +510,238 @@ func init() { drivers["vjson"] = driveVJSON }
 
 var _ = big.NewInt
 var _ = strings.TrimSpace
+
+// ---------------------------------------------------------------- schema-guided decoding
+
+const coerceSchemaText = `
+namespace NS { entity T; }
+entity G;
+entity U in [G] {
+  e: U, oe?: NS::T, d: decimal, ip?: ipaddr, t?: datetime, dur?: duration,
+  se: Set<U>, sd?: Set<decimal>, r: { e?: U, d: decimal, s: String, n?: { e: Set<NS::T> } },
+  s: String, n: Long, b?: Bool
+} tags Set<decimal>;
+entity TagsOnlyExt tags decimal;
+entity TagsOnlyEnt in [G] tags U;
+entity TagsOnlySet tags Set<ipaddr>;
+entity TagsRec tags { e: U, d?: decimal };
+entity NoTags { e: U };
+`
+
+var coerceSchema = func() *schema.Schema {
+	var s schema.Schema
+	if err := s.UnmarshalCedar([]byte(coerceSchemaText)); err != nil {
+		panic(err)
+	}
+	return &s
+}()
+
+// rewrite an explicit-form value document into the implicit form the declared type allows
+func implicitByType(doc J, t resolved.IsType) J {
+	switch t := t.(type) {
+	case resolved.EntityType:
+		if inner, ok := tGet(doc, "__entity"); ok {
+			return inner
+		}
+	case resolved.ExtensionType:
+		if inner, ok := tGet(doc, "__extn"); ok {
+			if arg, ok := tGet(inner, "arg"); ok {
+				return arg
+			}
+		}
+	case resolved.SetType:
+		if o, ok := doc.(Obj); ok {
+			if items, ok := o["a"].([]any); ok {
+				out := []any{}
+				for _, it := range items {
+					out = append(out, implicitByType(it, t.Element))
+				}
+				return Obj{"a": out}
+			}
+		}
+	case resolved.RecordType:
+		if ms, ok := tMembers(doc); ok {
+			out := []any{}
+			for _, m := range ms {
+				k, v := tKey(m), m.(Obj)["v"]
+				if a, ok := t[types.String(k)]; ok {
+					v = implicitByType(v, a.Type)
+				}
+				out = append(out, tMember(k, v))
+			}
+			return Obj{"o": out}
+		}
+	}
+	return doc
+}
+
+// op "vjsonschema": {datum: entity (conforming to coerceSchema)} -> spell: [{name, doc, backs: [Entity.UnmarshalJSONWithSchema,
+// EntityMap.UnmarshalJSONWithSchema]}] for the encoder's own document and for the implicit spelling
+func opVJSONSchema(c Obj) J {
+	rs := must(coerceSchema.Resolve())
+	var ent types.Entity
+	for _, e := range must(cwf.JToStore([]any{c["datum"]})) {
+		ent = e
+	}
+	b, err := json.Marshal(ent)
+	if err != nil {
+		panic(harnessError{err})
+	}
+	doc := must(ToTJSON(b))
+	names := []J{c["datum"], Obj{"attr": "type"}, Obj{"attr": "id"}}
+	spellings := []struct {
+		name string
+		doc  J
+	}{{"explicit", doc}}
+	if se, ok := rs.Entities[ent.UID.Type]; ok {
+		ms, _ := tMembers(doc)
+		out := []any{}
+		for _, m := range ms {
+			k, v := tKey(m), m.(Obj)["v"]
+			switch {
+			case k == "attrs":
+				v = implicitByType(v, se.Shape)
+			case k == "tags" && se.Tags != nil:
+				tms, _ := tMembers(v)
+				tout := []any{}
+				for _, tm := range tms {
+					tout = append(tout, tMember(tKey(tm), implicitByType(tm.(Obj)["v"], se.Tags)))
+				}
+				v = Obj{"o": tout}
+			}
+			out = append(out, tMember(k, v))
+		}
+		spellings = append(spellings, struct {
+			name string
+			doc  J
+		}{"implicit", Obj{"o": out}})
+	}
+	spell := []any{}
+	for _, sp := range spellings {
+		var w bytes.Buffer
+		fromTJSON(sp.doc, &w)
+		raw := w.Bytes()
+		one := guardJ(func() J {
+			var e exptypes.Entity
+			if err := e.UnmarshalJSONWithSchema(raw, rs); err != nil {
+				return Obj{"ok": false, "err": ascii(err.Error())}
+			}
+			return Obj{"ok": true, "v": entityToJ(types.Entity(e))}
+		})
+		many := guardJ(func() J {
+			var m exptypes.EntityMap
+			if err := m.UnmarshalJSONWithSchema(append(append([]byte("["), raw...), ']'), rs); err != nil {
+				return Obj{"ok": false, "err": ascii(err.Error())}
+			}
+			for _, e := range m {
+				return Obj{"ok": true, "v": entityToJ(e)}
+			}
+			return Obj{"ok": false, "err": "empty map"}
+		})
+		for _, r := range []J{one, many} {
+			if ok, _ := r.(Obj)["ok"].(bool); ok {
+				names = append(names, r.(Obj)["v"])
+			}
+		}
+		spell = append(spell, Obj{"name": sp.name, "doc": sp.doc, "backs": []any{one, many}})
+	}
+	return Obj{"spell": spell, "names": jsonNameTable(names...)}
+}
+
+// driver "vjsonschema": entities of every type of coerceSchema, optional members present and absent
+func driveVJSONSchema(seed int64, n int, params map[string]string) []Obj {
+	g := newGen(seed, 2)
+	g.avoidKnown = true
+	uid := func(t string) types.EntityUID {
+		return types.NewEntityUID(types.EntityType(t), types.String(g.textString(g.r.Intn(70))))
+	}
+	dec := func() types.Value { return cwf.DecimalFromRaw(boundary64(g.r, g.r.Intn(50))) }
+	ip := func() types.Value { return g.ipValue(g.r.Intn(14)) }
+	dt := func() types.Value {
+		ms := boundary64(g.r, g.r.Intn(50))
+		if ms < -9223372036854775808+2*86400000 {
+			ms = 1
+		}
+		return types.NewDatetimeFromMillis(ms)
+	}
+	opt := func() bool { return g.r.Intn(2) == 0 }
+	set := func(f func() types.Value) types.Value {
+		var vs []types.Value
+		for i := g.r.Intn(3); i > 0; i-- {
+			vs = append(vs, f())
+		}
+		return types.NewSet(vs...)
+	}
+	tags := func(f func() types.Value) types.Record {
+		m := types.RecordMap{}
+		for i := g.r.Intn(3); i > 0; i-- {
+			m[types.String(g.textString(g.r.Intn(70)))] = f()
+		}
+		return types.NewRecord(m)
+	}
+	out := make([]Obj, 0, n)
+	for i := 0; len(out) < n; i++ {
+		var e types.Entity
+		switch i % 6 {
+		case 0, 1:
+			e.UID = uid("U")
+			m := types.RecordMap{"e": uid("U"), "d": dec(), "se": set(func() types.Value { return uid("U") }), "s": types.String(g.textString(g.r.Intn(70))), "n": types.Long(boundary64(g.r, g.r.Intn(40)))}
+			r := types.RecordMap{"d": dec(), "s": types.String("type")}
+			if opt() {
+				r["e"] = uid("U")
+			}
+			if opt() {
+				r["n"] = types.NewRecord(types.RecordMap{"e": set(func() types.Value { return uid("NS::T") })})
+			}
+			m["r"] = types.NewRecord(r)
+			if opt() {
+				m["oe"] = uid("NS::T")
+			}
+			if opt() {
+				m["ip"] = ip()
+			}
+			if opt() {
+				m["t"] = dt()
+			}
+			if opt() {
+				m["dur"] = types.NewDurationFromMillis(boundary64(g.r, g.r.Intn(50)))
+			}
+			if opt() {
+				m["sd"] = set(dec)
+			}
+			if opt() {
+				m["b"] = types.Boolean(opt())
+			}
+			e.Attributes = types.NewRecord(m)
+			e.Parents = types.NewEntityUIDSet(uid("G"))
+			e.Tags = tags(func() types.Value { return set(dec) })
+		case 2:
+			e.UID, e.Tags = uid("TagsOnlyExt"), tags(dec)
+		case 3:
+			e.UID, e.Tags = uid("TagsOnlyEnt"), tags(func() types.Value { return uid("U") })
+			e.Parents = types.NewEntityUIDSet(uid("G"))
+		case 4:
+			e.UID, e.Tags = uid("TagsOnlySet"), tags(func() types.Value { return set(ip) })
+		default:
+			if i%12 == 5 {
+				e.UID, e.Attributes = uid("NoTags"), types.NewRecord(types.RecordMap{"e": uid("U")})
+			} else {
+				e.UID = uid("TagsRec")
+				e.Tags = tags(func() types.Value {
+					m := types.RecordMap{"e": uid("U")}
+					if opt() {
+						m["d"] = dec()
+					}
+					return types.NewRecord(m)
+				})
+			}
+		}
+		out = append(out, Obj{"op": "vjsonschema", "schema": cwf.SchemaToJ(coerceSchema.AST()), "datum": entityToJ(e)})
+	}
+	return out
+}
+
+func init() {
+	register("vjsonschema", opVJSONSchema, func(c Obj, obs, exp J) []int { return nil })
+	drivers["vjsonschema"] = driveVJSONSchema
+}
